@@ -78,6 +78,8 @@ pub fn draw(rng: &mut Rng) -> Prog {
 }
 
 struct Run {
+    events: Vec<hook::EventRec>,
+    final_len: usize,
     history: Vec<Ev>,
     prefill: std::collections::BTreeMap<u64, u64>,
     audit_failures: Vec<String>,
@@ -86,6 +88,8 @@ struct Run {
 
 fn execute(p: &Prog, sched_seed: u64, replay: Option<Vec<u8>>) -> Run {
     ledger().reset();
+    let _ = hook::events_take();
+    hook::events_enable(true);
     let map: Arc<Map> = Arc::new(if p.cap == 0 { Map::with_hasher(HB::new(p.mode)) } else { Map::with_capacity_and_hasher(p.cap, HB::new(p.mode)) }.with_collector(seize::Collector::new().batch_size(1)));
     let mut prefill = std::collections::BTreeMap::new();
     {
@@ -136,6 +140,9 @@ fn execute(p: &Prog, sched_seed: u64, replay: Option<Vec<u8>>) -> Run {
         drop(g);
         h.lock().unwrap().extend(evs);
     });
+    hook::events_enable(false);
+    let events = hook::events_take();
+    let mut final_len = 0;
     let mut history = std::mem::take(&mut *hist.lock().unwrap());
     let mut audit_failures = Vec::new();
     if res.verdict == Verdict::Completed && !res.watchdog {
@@ -150,11 +157,12 @@ fn execute(p: &Prog, sched_seed: u64, replay: Option<Vec<u8>>) -> Run {
         let hf = |k: &TKey| hash_of(p.mode, k.k);
         let (a, _) = crate::inspect::audit(&d, Some(&hf), map.len(), map.is_empty());
         audit_failures = a.failures;
+        final_len = d.len;
     } else {
         // threads may still be inside the map
         std::mem::forget(map);
     }
-    Run { history, prefill, audit_failures, res }
+    Run { events, final_len, history, prefill, audit_failures, res }
 }
 
 pub fn run(ctx: &Ctx, prop: &str) -> Outcome {
@@ -174,7 +182,17 @@ pub fn run(ctx: &Ctx, prop: &str) -> Outcome {
         let mut rng = Rng::new(s);
         // 8 schedules per program
         let mut prng = Rng::new(splitmix(ctx.seed ^ (i / 8).wrapping_mul(0x9E37) ^ ctx.shard << 40));
-        let p = draw(&mut prng);
+        let mut p = draw(&mut prng);
+        if prop == "c10" {
+            // growing tables only: every schedule contains resizes, often with helpers
+            p.mode = *prng.pick(&[IDENTITY, UNIFORM]);
+            p.cap = *prng.pick(&[0usize, 1, 2, 3]);
+            p.nkeys = prng.range(12, 40);
+            p.prefill = 0;
+            p.threads = prng.range(2, 4) as usize;
+            p.ops = prng.range(6, 14) as usize;
+            p.readers = 0;
+        }
         i += 1;
         let sched_seed = rng.next();
         let r = execute(&p, sched_seed, None);
@@ -228,6 +246,20 @@ pub fn run(ctx: &Ctx, prop: &str) -> Outcome {
                 replay(&r.res),
             );
             break;
+        }
+        if prop == "c10" {
+            match crate::freerun::resize_monitor(&r.events, r.final_len) {
+                Ok(st) => {
+                    out.add("generations", st.generations);
+                    out.add("generations_multi_helper", st.multi_helper_generations);
+                    out.add("bins_forwarded", st.bins_forwarded);
+                }
+                Err(e) => {
+                    out.violate("c10/serial", format!("{e} [schedule {} of shard {}, {}]", i - 1, ctx.shard, p.to_json()), replay(&r.res));
+                    break;
+                }
+            }
+            continue;
         }
         let pre = r.prefill.clone();
         let init = move |k: u64| pre.get(&k).copied();
